@@ -210,6 +210,9 @@ pub struct CodegenContext {
     macro_depth: usize,
     /// Was the maximum nesting depth exceeded in this pass? Then no further macros are expanded in this pass.
     macro_depth_exceeded: bool,
+
+    /// How many loop iterations were emitted in this pass, over all loops?
+    loop_iterations: usize,
 }
 
 #[derive(Debug, PartialEq, Eq, Hash)]
@@ -260,6 +263,7 @@ impl CodegenContext {
             import_stack: vec![],
             macro_depth: 0,
             macro_depth_exceeded: false,
+            loop_iterations: 0,
         }
     }
 
@@ -361,6 +365,7 @@ impl CodegenContext {
         self.pass_idx += 1;
         self.next_macro_scope_id = 0;
         self.macro_depth_exceeded = false;
+        self.loop_iterations = 0;
 
         log::trace!("\n* NEXT PASS ({}) *", self.pass_idx);
         self.segments.values_mut().for_each(|s| s.reset());
@@ -1008,7 +1013,21 @@ impl CodegenContext {
                 ..
             } => {
                 if let Some(loop_count) = self.evaluate_expression_as_i64(expr, true)? {
+                    // A huge count (or a few large loops nested in each other) would keep the assembler busy forever
+                    const MAX_LOOP_ITERATIONS: usize = 1 << 20;
                     for index in 0..loop_count {
+                        self.loop_iterations += 1;
+                        if loop_count > MAX_LOOP_ITERATIONS as i64
+                            || self.loop_iterations > MAX_LOOP_ITERATIONS
+                        {
+                            return Err(Diagnostic::error()
+                                .with_message(format!(
+                                    "loops are repeated more than {} times",
+                                    MAX_LOOP_ITERATIONS
+                                ))
+                                .with_labels(vec![expr.span.to_label()])
+                                .into());
+                        }
                         self.with_scope(loop_scope, Some(block), |s| {
                             // (a variable, so that every iteration can give it its value without the symbol having to be
                             // removed in between: a removed symbol's index is reused by the next symbol that is created,
